@@ -21,6 +21,9 @@ use crate::*;
 pub struct State<'a> {
     pub(crate) parent_clip_path: Option<SvgNode<'a, 'a>>,
     pub(crate) parent_markers: Vec<SvgNode<'a, 'a>>,
+    /// Clip paths, masks, patterns and filters that are being converted right now.
+    /// Used to break reference cycles of any length.
+    pub(crate) parent_defs: Vec<SvgNode<'a, 'a>>,
     /// Stores the resolved fill and stroke of a use node
     /// or a path element (for markers)
     pub(crate) context_element: Option<(Option<Fill>, Option<Stroke>)>,
@@ -323,6 +326,7 @@ pub(crate) fn convert_doc(svg_doc: &svgtree::Document, opt: &Options) -> Result<
         parent_clip_path: None,
         context_element: None,
         parent_markers: Vec::new(),
+        parent_defs: Vec::new(),
         fe_image_link: false,
         view_box: view_box.rect,
         use_size: (None, None),
@@ -418,6 +422,7 @@ fn resolve_svg_size(svg: &SvgNode, opt: &Options) -> (Result<Size, Error>, bool)
         parent_clip_path: None,
         context_element: None,
         parent_markers: Vec::new(),
+        parent_defs: Vec::new(),
         fe_image_link: false,
         view_box: NonZeroRect::from_xywh(0.0, 0.0, 100.0, 100.0).unwrap(),
         use_size: (None, None),
